@@ -22,6 +22,8 @@ import Golib.Lists.LinkedConc
 import Golib.Lists.CrossNum
 import Golib.Lists.PackTable
 import Golib.Lists.RunLift
+import Golib.Lists.FloatText
+import Golib.Lists.LinkedText
 
 namespace C13
 open Lists
@@ -758,5 +760,144 @@ example : floatLe 31 0x80000000 0 = true ∧ floatLe 31 0 0x80000000 = true ∧
 
 example : roundNat 9007199254740993 = 9007199254740992 ∧ roundNat 9007199254740995 = 9007199254740996 := by
   decide
+
+/-! ### round 7: float <-> text cross-type methods, text views of the linked list -/
+
+/-- **float_text_view.**  AddString / SetString / GetString on a FloatList or DoubleList
+    (`FloatText.floatView`: ParseFloat with error → panic, FormatFloat 'f' 6) and AddFloat / AddDouble /
+    SetFloat / SetDouble / GetFloat / GetDouble on a StringList (`FloatText.stringView`) — any view
+    `v` — answer as the plain sequence with the conversion applied on the way in / out, for EVERY op
+    sequence from any well-formed list below the bound; the final list holds the final sequence.
+    Excluded (answer `excluded`, never generated by tie B): texts with '_', hexadecimal texts, "nan". -/
+theorem float_text_view {α : Type} (g : Growth) (hg : g.OK) (v : FloatText.View α)
+    (ops : List FloatText.VOp) (l : TL α) (hi : TL.Inv l) (hb : (TL.abs l).length + ops.length ≤ TL.BOUND) :
+    (RunLift.runG (FloatText.stepV g v) ops l).1 = (RunLift.runG (FloatText.specV v) ops (TL.abs l)).1 ∧
+    TL.abs (RunLift.runG (FloatText.stepV g v) ops l).2 = (RunLift.runG (FloatText.specV v) ops (TL.abs l)).2 := by
+  have h := RunLift.lift (FloatText.stepV g v) (FloatText.specV v) RunLift.RelL List.length TL.BOUND
+    (fun op c a h hb => by
+      obtain ⟨hi, ha⟩ := h
+      subst ha
+      obtain ⟨h1, h2, h3⟩ := FloatText.stepV_refines g hg v op c hi hb
+      exact ⟨h1, h3, h2⟩)
+    (FloatText.specV_len v) ops l (TL.abs l) ⟨hi, rfl⟩ hb
+  exact ⟨h.1, h.2.2⟩
+
+example : (RunLift.runG (FloatText.specV (FloatText.floatView true)) [.add (.text [48, 46, 49]), .get 0 .f64,
+      .add (.text [49, 101]), .get 1 .f64] []).1 =
+    [.unit, .val (.f64 0x3fb999999999999a), .panic, .panic] := by decide +kernel
+
+/-- **getString_correctly_rounded.**  The number `GetString` prints for the finite element ±m·2^e
+    (`fmtF6 = sign, N / 10^6, '.', N mod 10^6 on six digits` with `N = scaled6 m e`) is the value
+    rounded correctly to six decimals: exact for e ≥ 0, and |m·10^6 / 2^(-e) − N| ≤ 1/2 otherwise. -/
+theorem getString_correctly_rounded (f : FloatConv.Fmt) (bits : Nat) (neg : Bool) (m : Nat) (e : Int)
+    (hd : FloatConv.decode f bits = some (neg, m, e)) :
+    FloatText.fmtF6 f bits = FloatText.fixed6 neg (FloatText.scaled6 m e) ∧
+    (0 ≤ e → FloatText.scaled6 m e = m * 2 ^ e.toNat * 1000000) ∧
+    (e < 0 → 2 * (2 ^ (-e).toNat * FloatText.scaled6 m e) ≤ 2 * (m * 1000000) + 2 ^ (-e).toNat ∧
+      2 * (m * 1000000) ≤ 2 * (2 ^ (-e).toNat * FloatText.scaled6 m e) + 2 ^ (-e).toNat) :=
+  ⟨by simp [FloatText.fmtF6, hd], FloatText.scaled6_exact m e, FloatText.scaled6_nearest m e⟩
+
+example : FloatConv.decode FloatConv.f64 0x3f80000000000000 = some (false, 2 ^ 52, -59) ∧     -- 1/128: a tie
+    FloatText.scaled6 (2 ^ 52) (-59) = 7812 := by decide +kernel
+
+/-- **doubleList_setString_partial.**  With the repaired statement (`quirk := false`,
+    proposed/C13/fix-D46.diff) SetString stores on a DoubleList what AddString stores; on a FloatList
+    and a StringList it does in the code as it is. -/
+theorem doubleList_setString_partial (x : FloatText.TV) :
+    (FloatText.floatView true false).cin true x = (FloatText.floatView true false).cin false x ∧
+    (FloatText.floatView false).cin true x = (FloatText.floatView false).cin false x ∧
+    FloatText.stringView.cin true x = FloatText.stringView.cin false x := by
+  cases x <;> exact ⟨rfl, rfl, rfl⟩
+
+/-- **finding_D46.**  In the code as it is, `DoubleList.SetString(0, "0.1")` stores
+    float64(float32(0.1)) where `AddString("0.1")` stores 0.1, and `SetString(0, "1e39")` panics where
+    `AddString("1e39")` does not (ParseFloat(v, 32), the statement of FloatList). -/
+theorem finding_D46 :
+    (FloatText.floatView true).cin true (.text [48, 46, 49]) ≠ (FloatText.floatView true).cin false (.text [48, 46, 49]) ∧
+    (FloatText.specV (FloatText.floatView true) (.set 0 (.text [49, 101, 51, 57])) [0]).1 = .panic ∧
+    (FloatText.specV (FloatText.floatView true) (.add (.text [49, 101, 51, 57])) [0]).1 = .unit := by
+  decide +kernel
+
+/-- **linkedlist_text_views.**  After every history on the pointer structure, `ToString()` is the
+    deque's elements in decimal, comma separated, and `ToString()` of the k-th entity (GetFirst +
+    k × GetNext) is the decimal of the k-th element — a nil dereference exactly when there is none. -/
+theorem linkedlist_text_views (ops : List Linked.Op) (k : Nat) :
+    (Linked.LL.run ops Linked.LL.empty).2.toStringL =
+      some (Linked.joinComma ((Linked.Spec.run ops []).2.map Cross.itoa)) ∧
+    (Linked.LL.run ops Linked.LL.empty).2.entityToString k = ((Linked.Spec.run ops []).2)[k]?.map Cross.itoa := by
+  obtain ⟨ids, h⟩ := Linked.run_rep ops _ _ _ Linked.Rep.empty
+  exact ⟨Linked.toStringL_spec h, Linked.entityToString_spec h k⟩
+
+example : (Linked.LL.run [.addLast 5, .addFirst (-7), .removeFirst, .addLast 12] Linked.LL.empty).2.toStringL =
+    some (Cross.itoa 5 ++ [44] ++ Cross.itoa 12) := by
+  rw [(linkedlist_text_views _ 0).1]; rfl
+
+/-- **pack_iterate.**  `Iterate` is an unpacking access like Get / GetDataTable: it leaves the state
+    `unpack` leaves (wire columns merged into the table, cache empty — so the next Write encodes the
+    current table), hands the callback the keys of the merged table and calls it once per row of the
+    first column (not at all for an empty table). -/
+theorem pack_iterate (g : Growth) (s s' : PackTable.St) (r : Option (List Bytes × Nat))
+    (h : PackTable.iterate g s = some (s', r)) :
+    PackTable.unpack g s = some s' ∧ s'.raw = [] ∧
+    r = (match s'.table with
+      | [] => none
+      | e :: _ => some (s'.table.map (fun x => x.1), e.2.l.size)) :=
+  PackTable.iterate_spec g s s' r h
+
+example : PackTable.iterate Growth.go (PackTable.put PackTable.empty [99] ⟨1, TL.mk' (.i 0) 0⟩) =
+    some (PackTable.put PackTable.empty [99] ⟨1, TL.mk' (.i 0) 0⟩, some ([[99]], 0)) := by
+  simp [PackTable.iterate, PackTable.unpack, PackTable.put, PackTable.empty, Table.put, TL.mk']
+
+/-- **wire_roundtrip_iff.**  For a list of fewer than 2^24 elements the wire form reads back (into a
+    fresh list, any bytes behind it left alone) to an equal list IF AND ONLY IF it has fewer than 2^23
+    elements — the sharp domain of the wire clause (from 2^23 on the 24-bit count reads negative). -/
+theorem wire_roundtrip_iff {α : Type} (g : Growth) (hg : g.OK) (c : Codec α) (z : α) (l l0 : TL α) (r : Bytes)
+    (hi : TL.Inv l) (h0 : Fresh z l0) (h24 : l.size < 16777216) (hw : ∀ x ∈ TL.abs l, c.wf x) :
+    (∃ l', P.run (read g c z l0) (write c l ++ r) = some (l', r) ∧ TL.toArray l' = TL.toArray l) ↔
+      l.size < 8388608 := by
+  constructor
+  · intro ⟨l', h1, h2⟩
+    apply Classical.byContradiction
+    intro hn
+    have hw' := wire_count_wraps g c z l l0 r (by omega) h24
+    rw [hw'] at h1
+    simp only [Option.some.injEq, Prod.mk.injEq] at h1
+    rw [← h1.1, TL.toArray_eq_abs, TL.toArray_eq_abs, h0.abs] at h2
+    have hl := TL.abs_length hi
+    rw [← h2] at hl
+    simp at hl
+    omega
+  · intro hsz
+    exact list_wire g hg c z l l0 r hi h0 hsz hw
+
+/-- **sorting_after_history.**  Sorting is a query on the CURRENT contents: after every history of
+    Add / AddAll / Set / Get / … from a fresh list, `Sorting(asc)` — the code reads the elements through
+    `get(i)`, i < size — returns a permutation of the indices of the sequence the history built that
+    meets its values in the requested order (`BigContract`: sort.Sort beyond 12 elements). -/
+theorem sorting_after_history {α : Type} (big : SortFn) (hbig : BigContract big) {le : α → α → Bool}
+    (h : TotalPreorder le) (g : Growth) (hg : g.OK) (z : α) (ops : List (Op α)) (l0 : TL α) (h0 : Fresh z l0)
+    (hb : (Spec.run ops []).2.length ≤ TL.BOUND) (asc : Bool) :
+    (sorting (goSort big) le asc (fun i => (TL.get (Code.run g z ops l0).2 (i : Int)).getD z)
+        (Code.run g z ops l0).2.size).Perm (List.range (Spec.run ops []).2.length) ∧
+    ((sorting (goSort big) le asc (fun i => (TL.get (Code.run g z ops l0).2 (i : Int)).getD z)
+        (Code.run g z ops l0).2.size).map (fun i => (Spec.run ops []).2.getD i z)).Pairwise
+      (fun a b => dir le asc a b = true) := by
+  have hr := list_refines_seq_from g hg z ops l0 h0.inv (by rw [h0.abs]; exact hb)
+  rw [h0.abs] at hr
+  obtain ⟨_, ha, hinv⟩ := hr
+  have hv : (fun i : Nat => (TL.get (Code.run g z ops l0).2 (i : Int)).getD z) =
+      (fun i => (Spec.run ops []).2.getD i z) := by
+    funext i
+    rw [TL.get_spec _ _ hinv, ha]
+    by_cases hlt : i < (Spec.run ops []).2.length
+    · have : (0 : Int) ≤ (i : Int) ∧ (i : Int) < ((Spec.run ops []).2.length : Int) := by omega
+      simp [this, List.getD]
+    · simp [List.getD, List.getElem?_eq_none (Nat.le_of_not_lt hlt)]
+  have hn : (Code.run g z ops l0).2.size = (Spec.run ops []).2.length := by
+    rw [← TL.abs_length hinv, ha]
+  rw [hv, hn]
+  exact sorting_orders_go big hbig h asc _ _
+
+example : (Spec.run [Op.add (3 : Int), Op.add 1, Op.add 2] []).2 = [3, 1, 2] := by decide
 
 end C13
